@@ -51,6 +51,7 @@ type enchClass struct {
 	Sizes  []int      `json:"sizes"` // parallel to Msg: > 0 = exactly that many bytes of plain text
 	Args   []*encNode `json:"args"`
 	Caller bool       `json:"caller"`
+	CFile  string     `json:"cfile"` // class of the call site's file name; "plain" / "": enchDo, else a //line site of fam_encoder_sites.go
 	Cls    string     `json:"cls"`
 	Via    string     `json:"via"` // method | ctx | logattrs
 }
@@ -531,6 +532,10 @@ func (s *enchState) emit(ei int, e enchEvent) {
 	c.Testing = is.InTesting()
 	c.Sev = sev
 	c.Caller = cl.Caller
+	c.CFile = cl.CFile
+	if c.CFile == "" {
+		c.CFile = "plain"
+	}
 	c.Msg = cl.Msg
 	r := &encRun{c: c, g: &encGen{r: rand.New(rand.NewSource(seed)), variant: -1}, keys: map[int]string{}, keyID: map[string]int{},
 		nodesAt: map[string][]*encNode{}}
@@ -585,7 +590,12 @@ func (s *enchState) emit(ei int, e enchEvent) {
 				panicked = fmt.Sprint(e)
 			}
 		}()
-		lo, hi, file, fn = enchDo(l, cl.Via, sev, r.msg, args)
+		if ls := encSiteOf(c.CFile, 1+e.S); c.CFile != "plain" && ls != nil {
+			// the issuing statement sits behind a //line directive whose file name carries that class
+			lo, file, fn = ls.do(l, cl.Via, slog.Level(sev), r.msg, args)
+		} else {
+			lo, hi, file, fn = enchDo(l, cl.Via, sev, r.msg, args)
+		}
 	}()
 	t1 := time.Now()
 	var payload []byte
@@ -621,7 +631,7 @@ func (s *enchState) emit(ei int, e enchEvent) {
 		obs["lvlsrc"] = s.nameSources(cl.Sev, sev, lvltext)
 	}
 	line := map[string]any{"op": "Emit", "l": slot, "r": e.R, "sev": cl.Sev, "msg": cl.Msg, "args": argNodes,
-		"caller": cl.Caller, "obs": obs}
+		"caller": cl.Caller, "cfile": c.CFile, "obs": obs}
 	pl := string(payload)
 	if len(pl) > 1800 {
 		pl = pl[:900] + " ...[" + strconv.Itoa(len(payload)) + " bytes]... " + pl[len(pl)-700:]
@@ -631,7 +641,7 @@ func (s *enchState) emit(ei int, e enchEvent) {
 		m = m[:200] + "...[" + strconv.Itoa(len(r.msg)) + " bytes]"
 	}
 	s.emitLine(line, map[string]any{"payload": strconv.QuoteToASCII(pl), "len": len(payload), "fmt": format,
-		"msg": strconv.QuoteToASCII(m), "name": r.name, "level": sev, "tag": tagtext, "lvl": lvltext, "panic": panicked,
+		"msg": strconv.QuoteToASCII(m), "name": r.name, "site": strconv.QuoteToASCII(file), "level": sev, "tag": tagtext, "lvl": lvltext, "panic": panicked,
 		"unmatched": r.unmatched, "valid_utf8": utf8.Valid(payload)})
 }
 
